@@ -71,7 +71,54 @@ theorem Spec.refl {g : Graph} {ex : List Nat} {r : Nat → Nat} {u : UP} {rb : N
     {targets : List Nat} (h : ∀ t ∈ targets, t ∈ ex ∨ t ∈ u.early) : Spec g ex r u u rb targets :=
   ⟨⟨[], by simp, filter_nil_id _, by simp, by simp, by simp, by simp, by simp⟩, h, fun h => h⟩
 
-mutual
+/-- the dependency loop, given the specification of the function it iterates -/
+theorem foldE_spec {g : Graph} {ex : List Nat} {r : Nat → Nat} (fuel : Nat)
+    (H : ∀ (u : UP) (i : Nat), u.plan.Nodup → (g i).isSome → r i < fuel →
+      ∃ u', addWithDeps g ex fuel u i = .ok u' ∧ Spec g ex r u u' (fun k => k ≤ r i) [i]) :
+    ∀ (u : UP) (ds : List Nat) (b : Nat), u.plan.Nodup →
+      (∀ d ∈ ds, (g d).isSome ∧ r d < fuel ∧ r d < b) →
+      ∃ u', foldE (addWithDeps g ex fuel) u ds = .ok u' ∧ Spec g ex r u u' (fun k => k < b) ds
+  | u, [], b, hnd, _ => by
+    unfold foldE
+    exact ⟨u, rfl, Spec.refl (by simp)⟩
+  | u, d :: ds, b, hnd, hk => by
+    unfold foldE
+    obtain ⟨hd1, hd2, hd3⟩ := hk d (by simp)
+    obtain ⟨u1, h1ok, h1spec⟩ := H u d hnd hd1 hd2
+    rw [h1ok]
+    simp only
+    obtain ⟨e1, ha1, ha2, ha3, ha4, ha5, ha6, ha7⟩ := h1spec.ext
+    have hnd1 : u1.plan.Nodup := by rw [ha2]; exact nodup_filter _ hnd
+    obtain ⟨u2, h2ok, h2spec⟩ := foldE_spec fuel H u1 ds b hnd1 (fun x hx => hk x (by simp [hx]))
+    rw [h2ok]
+    refine ⟨u2, rfl, ?_⟩
+    obtain ⟨e2, hb1, hb2, hb3, hb4, hb5, hb6, hb7⟩ := h2spec.ext
+    refine ⟨⟨e1 ++ e2, ?_, ?_, ?_, ?_, ?_, ?_, ?_⟩, ?_, ?_⟩
+    · simp [hb1, ha1]
+    · rw [hb2, ha2, filter_filter_app]
+    · intro x hx; simp at hx; rcases hx with h | h
+      · have := ha3 x h; omega
+      · exact hb3 x h
+    · intro x hx; simp at hx; rcases hx with h | h
+      · exact ha4 x h
+      · exact hb4 x h
+    · intro x hx; simp at hx; rcases hx with h | h
+      · exact ha5 x h
+      · have := hb5 x h; rw [ha1] at this; simp at this; exact this.1
+    · rw [List.nodup_append]; refine ⟨ha6, hb6, ?_⟩
+      intro a ha b' hb' e'; subst e'
+      have := hb5 a hb'; rw [ha1] at this; simp at this; exact this.2 ha
+    · intro x hx; simp at hx; rcases hx with h | h
+      · exact ha7 x h
+      · exact hb7 x h
+    · intro t ht; simp at ht; rcases ht with h | h
+      · subst h
+        rcases h1spec.reached t (by simp) with h' | h'
+        · exact Or.inl h'
+        · right; rw [hb1]; simp [h']
+      · exact h2spec.reached t h
+    · intro hE; exact h2spec.earlyOK (h1spec.earlyOK hE)
+
 theorem addWithDeps_spec {g : Graph} {ex : List Nat} {r : Nat → Nat} {n : Nat} (wf : WF g n r) :
     ∀ (fuel : Nat) (u : UP) (i : Nat), u.plan.Nodup → (g i).isSome → r i < fuel →
       ∃ u', addWithDeps g ex fuel u i = .ok u' ∧ Spec g ex r u u' (fun k => k ≤ r i) [i]
@@ -106,7 +153,8 @@ theorem addWithDeps_spec {g : Graph} {ex : List Nat} {r : Nat → Nat} {n : Nat}
             have h1 := wf.closed i hk d (by rw [hdeps]; exact hd)
             have h2 := wf.decr i d (by rw [hdeps]; exact hd)
             exact ⟨h1, by omega, h2⟩
-          obtain ⟨u2, h2ok, h2spec⟩ := addList_spec wf fuel u1 deps (r i) hnd1 hdk
+          obtain ⟨u2, h2ok, h2spec⟩ :=
+            foldE_spec fuel (addWithDeps_spec wf fuel) u1 deps (r i) hnd1 hdk
           rw [h2ok]
           refine ⟨_, rfl, ?_⟩
           obtain ⟨e, he1, he2, he3, he4, he5, he6, he7⟩ := h2spec.ext
@@ -137,51 +185,12 @@ theorem addWithDeps_spec {g : Graph} {ex : List Nat} {r : Nat → Nat} {n : Nat}
             intro d hd
             rw [hdeps] at hd
             exact h2spec.reached d hd
-theorem addList_spec {g : Graph} {ex : List Nat} {r : Nat → Nat} {n : Nat} (wf : WF g n r) :
-    ∀ (fuel : Nat) (u : UP) (ds : List Nat) (b : Nat), u.plan.Nodup →
-      (∀ d ∈ ds, (g d).isSome ∧ r d < fuel ∧ r d < b) →
-      ∃ u', addList g ex fuel u ds = .ok u' ∧ Spec g ex r u u' (fun k => k < b) ds
-  | fuel, u, [], b, hnd, _ => by
-    unfold addList
-    exact ⟨u, rfl, Spec.refl (by simp)⟩
-  | fuel, u, d :: ds, b, hnd, hk => by
-    unfold addList
-    obtain ⟨hd1, hd2, hd3⟩ := hk d (by simp)
-    obtain ⟨u1, h1ok, h1spec⟩ := addWithDeps_spec wf fuel u d hnd hd1 hd2
-    rw [h1ok]
-    simp only
-    obtain ⟨e1, ha1, ha2, ha3, ha4, ha5, ha6, ha7⟩ := h1spec.ext
-    have hnd1 : u1.plan.Nodup := by rw [ha2]; exact nodup_filter _ hnd
-    obtain ⟨u2, h2ok, h2spec⟩ := addList_spec wf fuel u1 ds b hnd1 (fun x hx => hk x (by simp [hx]))
-    rw [h2ok]
-    refine ⟨u2, rfl, ?_⟩
-    obtain ⟨e2, hb1, hb2, hb3, hb4, hb5, hb6, hb7⟩ := h2spec.ext
-    refine ⟨⟨e1 ++ e2, ?_, ?_, ?_, ?_, ?_, ?_, ?_⟩, ?_, ?_⟩
-    · simp [hb1, ha1]
-    · rw [hb2, ha2, filter_filter_app]
-    · intro x hx; simp at hx; rcases hx with h | h
-      · have := ha3 x h; omega
-      · exact hb3 x h
-    · intro x hx; simp at hx; rcases hx with h | h
-      · exact ha4 x h
-      · exact hb4 x h
-    · intro x hx; simp at hx; rcases hx with h | h
-      · exact ha5 x h
-      · have := hb5 x h; rw [ha1] at this; simp at this; exact this.1
-    · rw [List.nodup_append]; refine ⟨ha6, hb6, ?_⟩
-      intro a ha b' hb' e'; subst e'
-      have := hb5 a hb'; rw [ha1] at this; simp at this; exact this.2 ha
-    · intro x hx; simp at hx; rcases hx with h | h
-      · exact ha7 x h
-      · exact hb7 x h
-    · intro t ht; simp at ht; rcases ht with h | h
-      · subst h
-        rcases h1spec.reached t (by simp) with h' | h'
-        · exact Or.inl h'
-        · right; rw [hb1]; simp [h']
-      · exact h2spec.reached t h
-    · intro hE; exact h2spec.earlyOK (h1spec.earlyOK hE)
-end
+
+theorem addList_spec {g : Graph} {ex : List Nat} {r : Nat → Nat} {n : Nat} (wf : WF g n r)
+    (fuel : Nat) (u : UP) (ds : List Nat) (b : Nat) (hnd : u.plan.Nodup)
+    (hk : ∀ d ∈ ds, (g d).isSome ∧ r d < fuel ∧ r d < b) :
+    ∃ u', addList g ex fuel u ds = .ok u' ∧ Spec g ex r u u' (fun k => k < b) ds :=
+  foldE_spec fuel (addWithDeps_spec wf fuel) u ds b hnd hk
 
 end Dagrt.Controller
 
@@ -244,7 +253,6 @@ theorem updatePlan_inv {g : Graph} {r : Nat → Nat} {n : Nat} (wf : WF g n r) {
       apply depsFirst_append hE
       intro pre x post hsplit d hd
       -- x comes from the old plan
-      have hxmem : x ∈ s.plan.filter (fun x => decide (x ∉ e)) := by rw [hsplit]; simp
       obtain ⟨l1, l2, hl, hf1, hf2⟩ := List.filter_eq_append_iff.mp hsplit
       obtain ⟨m1, m2, hm, hm1, hm2, hm3⟩ := List.filter_eq_cons_iff.mp hf2
       subst hm
@@ -276,7 +284,8 @@ theorem pop_inv {g : Graph} {x : Nat} {rest ex : List Nat} (hi : Inv g { plan :=
   refine ⟨⟨hnd', ?_, ?_, fun y hy => hk y (by simp [hy])⟩, ?_, hdisj x (by simp)⟩
   · intro y hy; simp; exact ⟨fun e => hx (e ▸ hy), hdisj y (by simp [hy])⟩
   · intro pre y post heq d hd
-    rcases hdf (x :: pre) y post (by simp [heq]) d hd with h | h
+    have heq' : rest = pre ++ y :: post := heq
+    rcases hdf (x :: pre) y post (by simp [heq']) d hd with h | h
     · left; simp [h]
     · simp at h; rcases h with h | h
       · left; simp [h]
@@ -289,19 +298,20 @@ theorem pop_inv {g : Graph} {x : Nat} {rest ex : List Nat} (hi : Inv g { plan :=
 /-- the visit log: no statement twice, each after all its dependencies -/
 def LogOK (g : Graph) (log : List Nat) : Prop := log.Nodup ∧ DepsFirst g [] log
 
-structure LoopInv (g : Graph) (n : Nat) (s : St) (log : List Nat) : Prop where
+structure LoopInv (g : Graph) (n : Nat) (cov : List Nat) (s : St) (log : List Nat) : Prop where
   inv : Inv g s
   exec_eq : ∀ x, x ∈ s.executed ↔ x ∈ log
   logOK : LogOK g log
   logKnown : ∀ x ∈ log, (g x).isSome
+  cover : ∀ i ∈ cov, i ∈ s.plan ∨ i ∈ log
 
-theorem loop_pop {g : Graph} {n : Nat} {x : Nat} {rest ex log : List Nat}
-    (h : LoopInv g n { plan := x :: rest, executed := ex } log) :
-    LoopInv g n { plan := rest, executed := x :: ex } (log ++ [x]) := by
-  obtain ⟨hi, he, ⟨hlnd, hldf⟩, hlk⟩ := h
+theorem loop_pop {g : Graph} {n : Nat} {cov : List Nat} {x : Nat} {rest ex log : List Nat}
+    (h : LoopInv g n cov { plan := x :: rest, executed := ex } log) :
+    LoopInv g n cov { plan := rest, executed := x :: ex } (log ++ [x]) := by
+  obtain ⟨hi, he, ⟨hlnd, hldf⟩, hlk, hcov⟩ := h
   obtain ⟨hi', hdeps, hx⟩ := pop_inv hi
-  refine ⟨hi', ?_, ⟨?_, ?_⟩, ?_⟩
-  · intro y; simp; rw [← he y]; simp; tauto
+  refine ⟨hi', ?_, ⟨?_, ?_⟩, ?_, ?_⟩
+  · intro y; simp; rw [← he y]; simp; exact Or.comm
   · rw [List.nodup_append]; refine ⟨hlnd, by simp, ?_⟩
     intro a ha b hb; simp at hb; subst hb; intro e; subst e
     exact hx ((he a).mpr ha)
@@ -310,11 +320,18 @@ theorem loop_pop {g : Graph} {n : Nat} {x : Nat} {rest ex log : List Nat}
   · intro y hy; simp at hy; rcases hy with h | h
     · exact hlk y h
     · subst h; exact hi.known y (by simp)
+  · intro i hi''
+    rcases hcov i hi'' with h | h
+    · simp at h; rcases h with h | h
+      · right; simp [h]
+      · left; exact h
+    · right; simp [h]
 
 theorem runLoop_spec {g : Graph} {r : Nat → Nat} {n : Nat} (wf : WF g n r) (target : Nat → Action)
-    (htarget : ∀ x req, target x = .run req → ∀ i ∈ req, (g i).isSome) :
-    ∀ (fuel : Nat) (s : St) (log : List Nat), LoopInv g n s log →
-      ∃ log' s', runLoop g n target fuel s log = .ok (log', s') ∧ LoopInv g n s' log' ∧
+    (htarget : ∀ x req, target x = .run req → ∀ i ∈ req, (g i).isSome)
+    (cov : List Nat) :
+    ∀ (fuel : Nat) (s : St) (log : List Nat), LoopInv g n cov s log →
+      ∃ log' s', runLoop g n target fuel s log = .ok (log', s') ∧ LoopInv g n cov s' log' ∧
         (∃ ext, log' = log ++ ext) ∧
         ((∀ x, target x ≠ .abort) → n < fuel + log.length → (∀ i, (g i).isSome → i < n) → s'.plan = [])
   | 0, s, log, h => by
@@ -336,7 +353,7 @@ theorem runLoop_spec {g : Graph} {r : Nat → Nat} {n : Nat} (wf : WF g n r) (ta
       cases ht : target x with
       | skip =>
         simp only
-        obtain ⟨log', s', hok, hinv, ⟨ext, hext⟩, hfin⟩ := runLoop_spec wf target htarget fuel _ _ h1
+        obtain ⟨log', s', hok, hinv, ⟨ext, hext⟩, hfin⟩ := runLoop_spec wf target htarget cov fuel _ _ h1
         refine ⟨log', s', hok, hinv, ⟨[x] ++ ext, by simp [hext]⟩, ?_⟩
         intro ha hf hb; exact hfin ha (by simp; omega) hb
       | abort =>
@@ -347,7 +364,7 @@ theorem runLoop_spec {g : Graph} {r : Nat → Nat} {n : Nat} (wf : WF g n r) (ta
         cases req with
         | nil =>
           simp only
-          obtain ⟨log', s', hok, hinv, ⟨ext, hext⟩, hfin⟩ := runLoop_spec wf target htarget fuel _ _ h1
+          obtain ⟨log', s', hok, hinv, ⟨ext, hext⟩, hfin⟩ := runLoop_spec wf target htarget cov fuel _ _ h1
           refine ⟨log', s', hok, hinv, ⟨[x] ++ ext, by simp [hext]⟩, ?_⟩
           intro ha hf hb; exact hfin ha (by simp; omega) hb
         | cons q qs =>
@@ -356,10 +373,62 @@ theorem runLoop_spec {g : Graph} {r : Nat → Nat} {n : Nat} (wf : WF g n r) (ta
             updatePlan_inv wf h1.inv (q :: qs) (htarget x (q :: qs) ht)
           rw [hup]
           simp only
-          have h2 : LoopInv g n s2 (log ++ [x]) :=
-            ⟨hinv2, by intro y; rw [hex2]; exact h1.exec_eq y, h1.logOK, h1.logKnown⟩
-          obtain ⟨log', s', hok, hinv, ⟨ext, hext⟩, hfin⟩ := runLoop_spec wf target htarget fuel _ _ h2
+          have h2 : LoopInv g n cov s2 (log ++ [x]) := by
+            refine ⟨hinv2, by intro y; rw [hex2]; exact h1.exec_eq y, h1.logOK, h1.logKnown, ?_⟩
+            intro i hi''
+            rcases h1.cover i hi'' with h' | h'
+            · left; rw [hplan2]
+              by_cases hie : i ∈ e
+              · simp [hie]
+              · simp at h'; simp [hie, h']
+            · exact Or.inr h'
+          obtain ⟨log', s', hok, hinv, ⟨ext, hext⟩, hfin⟩ := runLoop_spec wf target htarget cov fuel _ _ h2
           refine ⟨log', s', hok, hinv, ⟨[x] ++ ext, by simp [hext]⟩, ?_⟩
           intro ha hf hb; exact hfin ha (by simp; omega) hb
+
+end Dagrt.Controller
+
+namespace Dagrt.Controller
+
+theorem reset_inv (g : Graph) : Inv g reset :=
+  ⟨by simp [reset], by simp [reset], depsFirst_nil _ _, by simp [reset]⟩
+
+/-- the initial plan: when the roots include every sink, every statement is planned
+    (in a finite acyclic graph every node lies below a sink) -/
+theorem initial_plan {g : Graph} {r : Nat → Nat} {n : Nat} (wf : WF g n r) (roots : List Nat)
+    (hk : ∀ i ∈ roots, (g i).isSome)
+    (hsinks : ∀ i, (g i).isSome → (∀ j, i ∉ depsOf g j) → i ∈ roots) :
+    ∃ s0, updatePlan g n reset roots = .ok s0 ∧ Inv g s0 ∧ s0.executed = [] ∧
+      ∀ i, (g i).isSome → i ∈ s0.plan := by
+  obtain ⟨s0, e, hok, hinv, hex, hplan, hreach⟩ := updatePlan_inv wf (reset_inv g) roots hk
+  have hpe : s0.plan = e := by simp [hplan, reset]
+  have hex' : s0.executed = [] := by simp [hex, reset]
+  refine ⟨s0, hok, hinv, hex', ?_⟩
+  have hclosed : ∀ j ∈ s0.plan, ∀ d ∈ depsOf g j, d ∈ s0.plan := by
+    intro j hj d hd
+    obtain ⟨pre, post, hsplit⟩ := List.append_of_mem hj
+    rcases hinv.depsFirst pre j post hsplit d hd with h | h
+    · rw [hex'] at h; simp at h
+    · rw [hsplit]; simp [h]
+  have key : ∀ k i, (g i).isSome → n - r i ≤ k → i ∈ s0.plan := by
+    intro k
+    induction k with
+    | zero => intro i hi hle; have := wf.bound i hi; omega
+    | succ k ih =>
+      intro i hi hle
+      by_cases hs : ∀ j, i ∉ depsOf g j
+      · have := hreach i (hsinks i hi hs)
+        simp [reset] at this; rw [hpe]; exact this
+      · have hs' : ∃ j, i ∈ depsOf g j := Classical.byContradiction (fun hne => hs (fun j hj => hne ⟨j, hj⟩))
+        obtain ⟨j, hj⟩ := hs'
+        have hjk : (g j).isSome := by
+          cases hgj : g j with
+          | none => simp [depsOf, hgj] at hj
+          | some _ => simp
+        have hr := wf.decr j i hj
+        have hb := wf.bound j hjk
+        exact hclosed j (ih j hjk (by omega)) i hj
+  intro i hi
+  exact key n i hi (by omega)
 
 end Dagrt.Controller
